@@ -139,6 +139,21 @@ theorem resume_cur_partial (w : World) (hw : w.OK) (hI : NonEmptyI w) (K : List 
     ValidLog w (K ++ o.appended) ∧ (K ++ o.appended).Perm w.universe ∧
     (∀ t ∈ o.tasks, ∀ r ∈ K, r.key ≠ t.key) := resume_cur_partial' w hw hI K hK hexp app happ
 
+/-- the hypotheses of `resume_correct` are satisfiable: the example experiment meets all of them -/
+theorem example_universe : Ex.w.universe = [rVer, rExp, rE, rL, rV, rI] := by decide
+
+example : Ex.w.OK := table_world_ok _ _ _ _ (by decide)
+
+example : NonEmptyI Ex.w := by
+  intro r hr e l v hk
+  rw [example_universe] at hr
+  simp only [List.mem_cons, List.mem_nil_iff, or_false] at hr
+  rcases hr with rfl | rfl | rfl | rfl | rfl | rfl <;> first | (simp [rVer, rExp, rE, rL, rV] at hk) | decide
+
+example : ValidLog Ex.w Ex.log := by
+  refine ⟨by decide, by decide, ?_⟩
+  intro r hr; simp [Ex.log] at hr; exact hr.symm
+
 example : ValidLog Ex.w [rVer, rExp, rE] ∧ Ex.w.exp ∈ [rVer, rExp, rE] := by
   refine ⟨⟨by decide, by decide, ?_⟩, by decide⟩
   intro r hr; simp at hr; exact hr.symm
